@@ -40,7 +40,7 @@ pub fn run_check(replay: Option<Value>) -> i32 {
         dim("tol", &tols),
         dim("direction", &["forward", "backward(reflected)"]),
         dim("jacobian", &["user", "finite-difference"]),
-        dim("t_eval_shape", &["13 points incl. both ends", "3 interior points only", "every second accepted time of the plain run and a neighbour 1e-13 away"]),
+        dim("t_eval_shape", &["13 points incl. both ends", "3 interior points only", "every second accepted time of the plain run and a neighbour 1e-13 away", "13 points, the last one an ulp short of xend"]),
         dim("first_step", &["automatic", "span/37"]),
     ];
     lattice(&mut rep, "c12", &dims, only.as_deref(), |key, idx| {
@@ -61,7 +61,14 @@ pub fn run_check(replay: Option<Value>) -> i32 {
         if idx[6] == 1 {
             c0.first_step = Some(xend / 37.0);
         }
-        let te: Vec<f64> = if idx[5] == 0 { (0..=12).map(|i| xend * i as f64 / 12.0).collect() } else { vec![0.21 * xend, 0.5 * xend, 0.83 * xend] };
+        let te: Vec<f64> = if idx[5] == 0 {
+            (0..=12).map(|i| xend * i as f64 / 12.0).collect()
+        } else if idx[5] == 3 {
+            // the integration interval is what the caller said, also when the grid misses xend by rounding
+            (0..=12).map(|i| if i == 12 { xend * (1.0 - f64::EPSILON) } else { xend * i as f64 / 12.0 }).collect()
+        } else {
+            vec![0.21 * xend, 0.5 * xend, 0.83 * xend]
+        };
         let desc = json!({"key": key, "point": describe(&dims, idx), "cfg": c0.json(&p.name)});
         let mut out = CaseOut::default();
         macro_rules! viol {
@@ -107,6 +114,10 @@ pub fn run_check(replay: Option<Value>) -> i32 {
             c.dense = with_dense;
             if with_ev {
                 c.events = vec![EventSpec::new(EvKind::Y(0, 0.5 * p.y0[0])), EventSpec::new(EvKind::Cos(2.0)), EventSpec::new(EvKind::T(0.37 * xend)).dir(Direction::Positive)];
+                // an event function that is exactly zero at an interior accepted step end
+                if ps.t.len() > 4 {
+                    c.events.push(EventSpec::new(EvKind::T(ps.t[ps.t.len() / 2])));
+                }
             }
             let label = format!("{{{}{}{}}}", if with_te { "t_eval " } else { "" }, if with_dense { "dense " } else { "" }, if with_ev { "events" } else { "" });
             let (r1, r2) = (run(&p, &c), run(&p, &c));
